@@ -229,3 +229,35 @@ func vh_route_resolve() {
 		vreach("resolved")
 	}
 }
+
+// C07 / C12: an address learnt from the network (ARP reply, neighbour advertisement, or a
+// request addressed to us) for a key whose cache entry is in ANY state - still resolving,
+// ready, failed after the retry budget, or expired - never panics the delivery path, and
+// the learnt address is what lookups report afterwards.
+func vh_cache_add_states() {
+	vclockFreeze()
+	c := newLinkAddrCache(time.Minute, time.Second, 3)
+	k := vhKey("k")
+	st := vnChoice("state", 4)
+	v0 := tcpip.LinkAddress(vnString("oldmac", 6))
+	switch st {
+	case 0: // resolution in progress
+		c.makeAndAddEntry(k, "")
+	case 1:
+		c.add(k, v0)
+	case 2: // resolution gave up
+		e := c.makeAndAddEntry(k, "")
+		e.changeState(failed)
+	case 3:
+		c.add(k, v0)
+		c.cache[k].changeState(expired)
+	}
+	vassert(vhCacheInv(c), "cache[k].addr == k")
+	v := tcpip.LinkAddress(vnString("newmac", 6))
+	c.add(k, v)
+	var w sleep.Waker
+	la, _, err := c.get(k, nil, "", nil, &w)
+	vassert(err == nil && la == v, "after add(k,v) a lookup of k returns v whatever state the old entry was in")
+	vassert(vhCacheInv(c), "add keeps cache[k].addr == k")
+	vreach("added")
+}
